@@ -4,14 +4,20 @@ import (
 	"encoding/json"
 	"fmt"
 	"os"
+	"strconv"
 	"strings"
+	"sync"
 
 	kyaml "sigs.k8s.io/kustomize/kyaml/yaml"
 )
 
-// C14: kyaml path operations obey get/set laws.
-// Correspondence: PathGetter/FieldSetter/FieldClearer vs KV.Yaml.Fns on (doc, path, op) cases.
-// Search: the lens laws evaluated directly on kyaml, under the side conditions of the theorems.
+// C14: kyaml path operations obey get/set laws; field-spec traversal visits exactly the denoted nodes.
+//
+// Correspondence: PathGetter/FieldSetter/FieldClearer and fieldspec.Filter vs KV.Yaml.Fns / KV.Yaml.FieldSpec
+//   on (doc, path, op) and (object, field spec, SetValue) cases (c14.go, c14_fs.go).
+// Search: the lens laws evaluated directly on kyaml under exactly the hypotheses of the theorems in
+//   Props/C14.v (laws14), on random cases and on an exhaustive small scope (c14_enum.go); the JSON reference
+//   model of Yaml/JsonRef.v is mirrored in c14_ref.go.
 
 func init() {
 	register("C14", propDef{
@@ -23,13 +29,34 @@ func init() {
 	})
 }
 
+// protect14 is protect without the error text: kyaml's InvalidNodeKindError.Error() YAML-encodes the whole
+// node, which dominated the run time of the exhaustive enumeration. The message of a panic is kept.
+func protect14(f func() error) (cls string, msg string) {
+	defer func() {
+		if r := recover(); r != nil {
+			cls = ClsPanic
+			msg = fmt.Sprint(r)
+		}
+	}()
+	if err := f(); err != nil {
+		return ClsErr, ""
+	}
+	return ClsOk, ""
+}
+
+// sink receives what the oracles produce (a *Run, or a per-worker buffer in the exhaustive enumeration).
+type sink interface {
+	Violation(v OracleViolation)
+	Count(dim, key string)
+}
+
 // ---- small document AST, emitted as block YAML and parsed by kyaml ----
 
 type gnode struct {
-	kind   int // 0 scalar, 1 map, 2 seq
-	text   string
-	keys   []string
-	vals   []*gnode
+	kind int // 0 scalar, 1 map, 2 seq
+	text string
+	keys []string
+	vals []*gnode
 }
 
 func (g *gnode) emit(b *strings.Builder, indent int, inline bool) {
@@ -68,11 +95,7 @@ func (g *gnode) emit(b *strings.Builder, indent int, inline bool) {
 				b.WriteString(pad)
 			}
 			b.WriteString("- ")
-			if v.kind == 0 || (v.kind == 1 && len(v.keys) == 0) || (v.kind == 2 && len(v.vals) == 0) {
-				v.emit(b, indent+1, true)
-			} else {
-				v.emit(b, indent+1, true)
-			}
+			v.emit(b, indent+1, true)
 		}
 	}
 }
@@ -119,6 +142,10 @@ func genNode14(rng *Rng, depth int, wantMap bool) *gnode {
 		g := &gnode{kind: 2}
 		elemMap := rng.Chance(70)
 		for i := 0; i < n; i++ {
+			if elemMap && rng.Chance(20) { // a stray scalar / null among keyed elements
+				g.vals = append(g.vals, &gnode{kind: 0, text: rng.Pick(c14Scalars)})
+				continue
+			}
 			if elemMap {
 				e := genNode14(rng, depth-1, true)
 				if rng.Chance(70) { // keyed element
@@ -160,6 +187,70 @@ func genPath14(rng *Rng, maxLen int) []string {
 	return p
 }
 
+// genPathGuided14 follows the generated document most of the time (existing keys, indices in range, selectors
+// that match an element) and leaves it with a random part now and then, so that deep branches are reached.
+func genPathGuided14(rng *Rng, root *gnode, maxLen int) []string {
+	n := rng.Intn(maxLen + 1)
+	p := []string{}
+	cur := root
+	for i := 0; i < n; i++ {
+		if cur == nil || rng.Chance(22) {
+			if rng.Chance(15) {
+				p = append(p, rng.Pick(c14OddParts))
+			} else {
+				p = append(p, rng.Pick(c14Parts))
+			}
+			cur = nil
+			continue
+		}
+		switch cur.kind {
+		case 1:
+			if len(cur.keys) == 0 {
+				p = append(p, rng.Pick(c14Keys))
+				cur = nil
+				continue
+			}
+			j := rng.Intn(len(cur.keys))
+			p = append(p, cur.keys[j])
+			cur = cur.vals[j]
+		case 2:
+			if len(cur.vals) == 0 {
+				p = append(p, rng.Pick([]string{"0", "-", "[name=x]", "[=x]"}))
+				cur = nil
+				continue
+			}
+			j := rng.Intn(len(cur.vals))
+			e := cur.vals[j]
+			switch k := rng.Intn(4); {
+			case k == 0:
+				p = append(p, fmt.Sprint(j))
+			case k == 1:
+				p = append(p, "-")
+				e = cur.vals[len(cur.vals)-1]
+			case e.kind == 1 && len(e.keys) > 0:
+				kj := rng.Intn(len(e.keys))
+				if e.vals[kj].kind == 0 {
+					p = append(p, "["+e.keys[kj]+"="+strings.Trim(e.vals[kj].text, `"`)+"]")
+				} else {
+					p = append(p, "["+e.keys[kj]+"=]")
+				}
+				// the selector returns the FIRST matching element, which may be an earlier one
+				e = nil
+			case e.kind == 0:
+				p = append(p, "[="+strings.Trim(e.text, `"`)+"]")
+				e = nil
+			default:
+				p = append(p, fmt.Sprint(j))
+			}
+			cur = e
+		default:
+			p = append(p, rng.Pick(c14Parts))
+			cur = nil
+		}
+	}
+	return p
+}
+
 // value specs for set operations: how the RNode is built matters (tags)
 type vspec struct {
 	Kind string `json:"kind"` // parse | scalar | string
@@ -173,6 +264,9 @@ var c14Values = []vspec{
 	{"scalar", ""}, {"string", "1e3"}, {"parse", "'on'"},
 }
 
+var vspecCache sync.Map // vspec -> *kyaml.RNode (parsed once; build hands out copies)
+
+// build returns a fresh value node (FieldSetter mutates the style of the node it is given).
 func (v vspec) build() *kyaml.RNode {
 	switch v.Kind {
 	case "scalar":
@@ -180,17 +274,26 @@ func (v vspec) build() *kyaml.RNode {
 	case "string":
 		return kyaml.NewStringRNode(v.Text)
 	default:
-		return kyaml.MustParse(v.Text)
+		if n, ok := vspecCache.Load(v); ok {
+			return n.(*kyaml.RNode).Copy()
+		}
+		n := kyaml.MustParse(v.Text)
+		vspecCache.Store(v, n)
+		return n.Copy()
 	}
 }
 
 type case14 struct {
-	Op    string   `json:"op"` // lookup | lookupcreate | put | putnc | clear | putscalar
-	Kind  string   `json:"kind,omitempty"`
-	Doc   string   `json:"doc"`
-	Path  []string `json:"path"`
-	Name  string   `json:"name,omitempty"`
-	Value *vspec   `json:"value,omitempty"`
+	Op     string     `json:"op"` // lookup | lookupcreate | put | putnc | clear | putscalar | fieldspec
+	Kind   string     `json:"kind,omitempty"`
+	Doc    string     `json:"doc"`
+	Path   []string   `json:"path"`
+	Name   string     `json:"name,omitempty"`
+	Value  *vspec     `json:"value,omitempty"`
+	Value2 *vspec     `json:"value2,omitempty"` // second value for the last-write-wins law (put)
+	FS     *fsSpec    `json:"fs,omitempty"`     // field spec (op fieldspec)
+	FSL    []*fsSpec  `json:"fsl,omitempty"`    // field specs of an fsslice.Filter (op fsslice); FSL[0] == FS
+	Probes [][]string `json:"probes,omitempty"` // frame probes (paths q) recorded for replay
 }
 
 func kindOf(s string) int {
@@ -199,18 +302,16 @@ func kindOf(s string) int {
 		return int(kyaml.MappingNode)
 	case "KSeq":
 		return int(kyaml.SequenceNode)
-	default:
+	case "KScalar":
 		return int(kyaml.ScalarNode)
+	default:
+		return 0
 	}
 }
 
-// exec14 runs the operation on a fresh parse of the document.
-func exec14(c case14) (cls string, doc *kyaml.RNode, found *kyaml.RNode, msg string) {
-	doc, err := kyaml.Parse(c.Doc)
-	if err != nil {
-		return "parse-error", nil, nil, err.Error()
-	}
-	cls, msg = protect(func() error {
+// exec14On runs the operation on the given document object (mutating it).
+func exec14On(doc *kyaml.RNode, c case14) (cls string, found *kyaml.RNode, msg string) {
+	cls, msg = protect14(func() error {
 		var e error
 		switch c.Op {
 		case "lookup":
@@ -225,11 +326,52 @@ func exec14(c case14) (cls string, doc *kyaml.RNode, found *kyaml.RNode, msg str
 			found, e = doc.Pipe(kyaml.Lookup(c.Path...), kyaml.Clear(c.Name))
 		case "putscalar":
 			found, e = doc.Pipe(kyaml.LookupCreate(kyaml.ScalarNode, c.Path...), kyaml.FieldSetter{Value: c.Value.build()})
+		case "fieldspec":
+			_, e = doc.Pipe(c.FS.filter(nil))
+		case "fsslice":
+			_, e = doc.Pipe(sliceFilter14(c.FSL, nil))
 		default:
 			return fmt.Errorf("bad op")
 		}
 		return e
 	})
+	return cls, found, msg
+}
+
+// exec14Err is exec14On returning the error value (replay only: the text is expensive to build).
+func exec14Err(doc *kyaml.RNode, c case14) (string, *kyaml.RNode, error) {
+	var found *kyaml.RNode
+	var e error
+	switch c.Op {
+	case "lookup":
+		found, e = doc.Pipe(kyaml.Lookup(c.Path...))
+	case "lookupcreate":
+		found, e = doc.Pipe(kyaml.LookupCreate(kyaml.Kind(kindOf(c.Kind)), c.Path...))
+	case "put":
+		found, e = doc.Pipe(kyaml.LookupCreate(kyaml.MappingNode, c.Path...), kyaml.SetField(c.Name, c.Value.build()))
+	case "putnc":
+		found, e = doc.Pipe(kyaml.Lookup(c.Path...), kyaml.SetField(c.Name, c.Value.build()))
+	case "clear":
+		found, e = doc.Pipe(kyaml.Lookup(c.Path...), kyaml.Clear(c.Name))
+	case "putscalar":
+		found, e = doc.Pipe(kyaml.LookupCreate(kyaml.ScalarNode, c.Path...), kyaml.FieldSetter{Value: c.Value.build()})
+	case "fieldspec":
+		_, e = doc.Pipe(c.FS.filter(nil))
+	case "fsslice":
+		_, e = doc.Pipe(sliceFilter14(c.FSL, nil))
+	default:
+		e = fmt.Errorf("bad op")
+	}
+	return "", found, e
+}
+
+// exec14 runs the operation on a fresh parse of the document.
+func exec14(c case14) (cls string, doc *kyaml.RNode, found *kyaml.RNode, msg string) {
+	doc, err := kyaml.Parse(c.Doc)
+	if err != nil {
+		return "parse-error", nil, nil, err.Error()
+	}
+	cls, found, msg = exec14On(doc, c)
 	return cls, doc, found, msg
 }
 
@@ -240,55 +382,160 @@ func nodeTerm(n *kyaml.RNode) (string, bool) {
 	return coqNode(n.YNode())
 }
 
-// selector-stability side condition shared with the theorems (KV.Yaml.FnsProofs.stable):
-// no [nm=v] selector is followed by the key nm as the place finally written, and no
-// primitive selector [=v] is the final part.
-func stable14(path []string, finalKey string) bool {
-	clean := []string{}
+func docString(n *kyaml.RNode) string {
+	s, ok := nodeTerm(n)
+	if !ok {
+		return "<unrepresentable>"
+	}
+	return s
+}
+
+func optString(n *kyaml.RNode) string {
+	if n == nil || n.YNode() == nil {
+		return "<nil>"
+	}
+	return docString(n)
+}
+
+// ---------- path parts: mirror of KV.Yaml.Fns.classify / parse_path and of PathGetter.getFilter ----------
+
+const (
+	pkKey = iota
+	pkIdx
+	pkLast
+	pkSel
+	pkBadSel
+	pkNeg
+	pkWild
+)
+
+type part14 struct {
+	kind    int
+	key     string
+	idx     int
+	nm, val string
+}
+
+func classify14(p string) part14 {
+	if i, err := strconv.Atoi(p); err == nil {
+		if i < 0 {
+			return part14{kind: pkNeg}
+		}
+		return part14{kind: pkIdx, idx: i}
+	}
+	switch {
+	case p == "-":
+		return part14{kind: pkLast}
+	case p == "*":
+		return part14{kind: pkWild}
+	case kyaml.IsListIndex(p):
+		nm, v, err := kyaml.SplitIndexNameValue(p)
+		if err != nil {
+			return part14{kind: pkBadSel}
+		}
+		return part14{kind: pkSel, nm: nm, val: v}
+	}
+	return part14{kind: pkKey, key: p}
+}
+
+func cleanPath14(path []string) []string {
+	out := []string{}
 	for _, p := range path {
 		p = strings.TrimSpace(p)
 		if p != "" {
-			clean = append(clean, p)
+			out = append(out, p)
 		}
 	}
-	for i, p := range clean {
-		if !kyaml.IsListIndex(p) {
-			continue
-		}
-		nm, _, err := kyaml.SplitIndexNameValue(p)
-		if err != nil {
-			continue
-		}
-		if i == len(clean)-1 {
-			if nm == finalKey {
-				return false
-			}
-		} else if i == len(clean)-2 && finalKey == "" && clean[i+1] == nm {
+	return out
+}
+
+func parsePath14(path []string) []part14 {
+	out := []part14{}
+	for _, p := range cleanPath14(path) {
+		out = append(out, classify14(p))
+	}
+	return out
+}
+
+func partEq14(a, b part14) bool {
+	if a.kind != b.kind {
+		return false
+	}
+	switch a.kind {
+	case pkKey:
+		return a.key == b.key
+	case pkIdx:
+		return a.idx == b.idx
+	case pkSel:
+		return a.nm == b.nm && a.val == b.val
+	}
+	return true
+}
+
+// apartb of FnsSpec.v
+func apart14(a, b part14) bool {
+	if a.kind != b.kind {
+		return false
+	}
+	switch a.kind {
+	case pkKey:
+		return a.key != b.key
+	case pkIdx:
+		return a.idx != b.idx
+	case pkSel:
+		return a.nm == b.nm && a.val != b.val
+	}
+	return false
+}
+
+// divergesb of FnsSpec.v
+func diverges14(ps, qs []part14) bool {
+	if len(ps) == 0 || len(qs) == 0 {
+		return false
+	}
+	if apart14(ps[0], qs[0]) {
+		return true
+	}
+	return partEq14(ps[0], qs[0]) && diverges14(ps[1:], qs[1:])
+}
+
+// no_sel_key_read of FnsSpec.v
+func noSelKeyRead14(qs []part14) bool {
+	for i := 0; i+1 < len(qs); i++ {
+		if qs[i].kind == pkSel && qs[i+1].kind == pkKey && qs[i+1].key == qs[i].nm {
 			return false
 		}
 	}
 	return true
 }
 
-// nullOnPath14: some node reached along the path (including the document and the final node) is null.
-// kyaml silently drops writes made through a null node; the theorems carry the hypothesis
-// no_null_path, and the oracles use the same domain.
-func nullOnPath14(docText string, path []string) bool {
-	for i := 0; i <= len(path); i++ {
-		doc, err := kyaml.Parse(docText)
-		if err != nil {
-			return true
-		}
+// stable14 = stable_put (finalKey != "") / stable_put_scalar (finalKey == "") of FnsSpec.v:
+// the write must not overwrite the field a [nm=v] selector at the end of its own path matches on.
+func stable14(path []string, finalKey string) bool {
+	ps := parsePath14(path)
+	n := len(ps)
+	if n >= 1 && ps[n-1].kind == pkSel {
+		return ps[n-1].nm != finalKey
+	}
+	if finalKey == "" && n >= 2 && ps[n-2].kind == pkSel && ps[n-1].kind == pkKey {
+		return ps[n-1].key != ps[n-2].nm || ps[n-2].nm == ""
+	}
+	return true
+}
+
+// nullOnPath14 = negb (no_null_path ps n): some node reached along the existing part of the path
+// (including the document and the node the whole path denotes) is null. Lookup is pure, so one document
+// object serves all prefixes.
+func nullOnPath14(doc *kyaml.RNode, path []string) bool {
+	clean := cleanPath14(path)
+	for i := 0; i <= len(clean); i++ {
 		var got *kyaml.RNode
-		cls, _ := protect(func() error {
+		cls, _ := protect14(func() error {
 			var e error
-			got, e = doc.Pipe(kyaml.Lookup(path[:i]...))
+			got, e = doc.Pipe(kyaml.Lookup(clean[:i]...))
 			return e
 		})
-		if cls != ClsOk {
-			return false
-		}
-		if got == nil {
+		if cls != ClsOk || got == nil {
 			return false
 		}
 		if kyaml.IsMissingOrNull(got) {
@@ -298,156 +545,412 @@ func nullOnPath14(docText string, path []string) bool {
 	return false
 }
 
-func hasDupKeys(n *kyaml.RNode) bool {
-	y := n.YNode()
-	if y == nil {
-		return false
+// panicClass14 names the class of a panic raised by a path operation. No path operation may panic (theorems
+// C14_no_panic*): every panic is an unlisted violation, classed by its message. (The former known shape, "-" on
+// an empty or null sequence, was repaired in /repo by 5cf7cc6.)
+func panicClass14(msg string) string {
+	short := msg
+	if len(short) > 60 {
+		short = short[:60]
 	}
-	var rec func(y *kyaml.Node) bool
-	rec = func(y *kyaml.Node) bool {
-		if y.Kind == kyaml.MappingNode {
-			seen := map[string]bool{}
-			for i := 0; i+1 < len(y.Content); i += 2 {
-				if seen[y.Content[i].Value] {
-					return true
-				}
-				seen[y.Content[i].Value] = true
-			}
-		}
-		for _, c := range y.Content {
-			if rec(c) {
-				return true
-			}
-		}
-		return false
-	}
-	return rec(y)
+	return "C14/panic:" + strings.ReplaceAll(short, " ", "_")
 }
 
-func docString(n *kyaml.RNode) string {
-	s, ok := nodeTerm(n)
-	if !ok {
-		return "<unrepresentable>"
-	}
-	return s
+func reportPanic14(s sink, c case14, msg string) {
+	s.Violation(OracleViolation{Law: "no_panic", Class: panicClass14(msg),
+		Detail: fmt.Sprintf("op %s path %q panics: %s", c.Op, c.Path, msg), Replay: c})
 }
 
-// laws14 evaluates the lens laws on the implementation for one (doc, path, name, value).
-func laws14(r *Run, c case14) {
-	if c.Op != "put" && c.Op != "lookup" && c.Op != "clear" {
-		return
+// sameValue: got is v up to the scalar style (with_style s v of the theorems)
+func sameValue14(got, want *kyaml.RNode) bool {
+	g, w := got.YNode(), want.YNode()
+	if g.Kind != w.Kind {
+		return false
 	}
-	orig, err := kyaml.Parse(c.Doc)
+	if g.Kind == kyaml.ScalarNode {
+		return g.Value == w.Value && g.Tag == w.Tag
+	}
+	return docString(got) == docString(want)
+}
+
+func lookupOn(doc *kyaml.RNode, path []string) (string, *kyaml.RNode, string) {
+	var got *kyaml.RNode
+	cls, msg := protect14(func() error {
+		var e error
+		got, e = doc.Pipe(kyaml.Lookup(path...))
+		return e
+	})
+	return cls, got, msg
+}
+
+func putOn(doc *kyaml.RNode, path []string, name string, v *kyaml.RNode) (string, *kyaml.RNode, string) {
+	var got *kyaml.RNode
+	cls, msg := protect14(func() error {
+		var e error
+		got, e = doc.Pipe(kyaml.LookupCreate(kyaml.MappingNode, path...), kyaml.SetField(name, v))
+		return e
+	})
+	return cls, got, msg
+}
+
+// eqNode14: equality of two nodes under the projection the model sees (coqNode): kind, tag class, style
+// class, scalar text, map keys by value. No allocation, so it can run millions of times.
+func eqNode14(a, b *kyaml.Node, styles bool) bool {
+	if a == nil || b == nil {
+		return a == b
+	}
+	if a.Kind == kyaml.DocumentNode && len(a.Content) == 1 {
+		a = a.Content[0]
+	}
+	if b.Kind == kyaml.DocumentNode && len(b.Content) == 1 {
+		b = b.Content[0]
+	}
+	ak, bk := a.Kind, b.Kind
+	if ak == 0 {
+		ak = kyaml.ScalarNode
+	}
+	if bk == 0 {
+		bk = kyaml.ScalarNode
+	}
+	if ak != bk {
+		return false
+	}
+	switch ak {
+	case kyaml.ScalarNode:
+		return a.Value == b.Value && coqTag(a.Tag) == coqTag(b.Tag) && (!styles || coqStyle(a.Style) == coqStyle(b.Style))
+	case kyaml.MappingNode:
+		if len(a.Content) != len(b.Content) {
+			return false
+		}
+		for i := 0; i+1 < len(a.Content); i += 2 {
+			if a.Content[i].Value != b.Content[i].Value || !eqNode14(a.Content[i+1], b.Content[i+1], styles) {
+				return false
+			}
+		}
+		return true
+	case kyaml.SequenceNode:
+		if len(a.Content) != len(b.Content) {
+			return false
+		}
+		for i := range a.Content {
+			if !eqNode14(a.Content[i], b.Content[i], styles) {
+				return false
+			}
+		}
+		return true
+	}
+	return false
+}
+
+// wellFormed14: the tree is one the model's node type can represent (what coqNode accepts), no allocation
+func wellFormed14(n *kyaml.Node) bool {
+	if n == nil {
+		return false
+	}
+	switch n.Kind {
+	case kyaml.DocumentNode:
+		return len(n.Content) == 1 && wellFormed14(n.Content[0])
+	case kyaml.MappingNode:
+		if len(n.Content)%2 != 0 {
+			return false
+		}
+		for i := 0; i < len(n.Content); i += 2 {
+			if n.Content[i].Kind != kyaml.ScalarNode || !wellFormed14(n.Content[i+1]) {
+				return false
+			}
+		}
+		return true
+	case kyaml.SequenceNode:
+		for _, c := range n.Content {
+			if !wellFormed14(c) {
+				return false
+			}
+		}
+		return true
+	case kyaml.ScalarNode:
+		return true
+	}
+	return n.Kind == 0 && n.Tag == "" && len(n.Content) == 0
+}
+
+func checkWellFormed14(s sink, c case14, cls string, doc *kyaml.RNode) {
+	if cls == ClsOk && doc != nil && !wellFormed14(doc.YNode()) {
+		s.Violation(OracleViolation{Law: "well_formed_result", Class: "C14/malformed-result",
+			Detail: "the operation returned without error but left a malformed node tree (odd mapping Content / alias / non-scalar key)", Replay: c})
+	}
+}
+
+func eqR14(a, b *kyaml.RNode) bool {
+	if a == nil || a.YNode() == nil || b == nil || b.YNode() == nil {
+		return (a == nil || a.YNode() == nil) == (b == nil || b.YNode() == nil)
+	}
+	return eqNode14(a.YNode(), b.YNode(), true)
+}
+
+// docCtx14: one parsed document shared by many law evaluations. orig is never handed to a mutating
+// operation (those run on copies); the only operations run on it are Lookups, whose purity is itself a law:
+// ref is a second pristine copy and orig is compared with it after every evaluation.
+type docCtx14 struct {
+	text      string
+	orig, ref *kyaml.RNode
+	j         *jv14
+	before    map[string]probeRes14
+}
+
+type probeRes14 struct {
+	cls   string
+	found *kyaml.Node
+}
+
+func newDocCtx14(text string) *docCtx14 {
+	orig, err := kyaml.Parse(text)
 	if err != nil {
+		return nil
+	}
+	return &docCtx14{text: text, orig: orig, ref: orig.Copy()}
+}
+
+func (d *docCtx14) json() *jv14 {
+	if d.j == nil {
+		d.j = toJ14(d.ref.YNode())
+	}
+	return d.j
+}
+
+func (d *docCtx14) lookupBefore(key string, q []string) probeRes14 {
+	if d.before == nil {
+		d.before = map[string]probeRes14{}
+	}
+	if r, ok := d.before[key]; ok {
+		return r
+	}
+	cls, found, _ := lookupOn(d.orig, q)
+	r := probeRes14{cls: cls}
+	if found != nil {
+		r.found = found.YNode()
+	}
+	d.before[key] = r
+	return r
+}
+
+// probe14: a frame probe path, parsed once
+type probe14 struct {
+	q     []string
+	key   string
+	parts []part14
+	nskr  bool // no_sel_key_read
+}
+
+func mkProbes14(qs [][]string) []probe14 {
+	out := make([]probe14, len(qs))
+	for i, q := range qs {
+		pp := parsePath14(q)
+		out[i] = probe14{q: q, key: strings.Join(q, "\x00"), parts: pp, nskr: noSelKeyRead14(pp)}
+	}
+	return out
+}
+
+// laws14 evaluates the lens laws on the implementation for one case (fresh parse).
+func laws14(s sink, c case14) {
+	d := newDocCtx14(c.Doc)
+	if d == nil {
 		return
 	}
-	origS := docString(orig)
+	laws14doc(s, c, d, mkProbes14(c.Probes))
+}
+
+// laws14doc evaluates the laws for one case on a shared document context. Every law is checked under exactly
+// the hypotheses of its theorem in Props/C14.v (named in the comments). Returns the outcome class of the
+// case's own operation and whether it returned a node.
+func laws14doc(s sink, c case14, d *docCtx14, probes []probe14) (cls string, gotNode bool) {
 	report := func(law, detail string) {
-		r.Violation(OracleViolation{Law: law, Class: "C14/" + law, Detail: detail, Replay: c})
+		s.Violation(OracleViolation{Law: law, Class: "C14/" + law, Detail: detail, Replay: c})
 	}
+	defer func() {
+		// C14_lookup_pure, for every Lookup the evaluation ran on the shared document
+		if !eqR14(d.orig, d.ref) {
+			report("lookup_pure", "Lookup modified the document: "+docString(d.ref)+" -> "+docString(d.orig))
+			d.orig = d.ref.Copy()
+			d.before = nil
+		}
+	}()
 	switch c.Op {
+	case "fieldspec":
+		return lawsFS14(s, c, d)
+	case "fsslice":
+		return lawsFSSlice14(s, c, d)
 	case "lookup":
-		cls, doc, _, _ := exec14(c)
-		if cls == ClsOk || cls == ClsErr {
-			if docString(doc) != origS {
-				report("lookup_pure", "Lookup modified the document: "+origS+" -> "+docString(doc))
+		// C14_lookup_pure (checked by the deferred comparison), no panic
+		cls, found, msg := lookupOn(d.orig, c.Path)
+		if cls == ClsPanic {
+			reportPanic14(s, c, msg)
+			return cls, false
+		}
+		// C14_refines_json_get / _absent
+		if cls == ClsOk {
+			j := jget14(parsePath14(c.Path), d.json())
+			if found != nil {
+				if j == nil || j.String() != toJ14(found.YNode()).String() {
+					report("refines_json_get", fmt.Sprintf("Lookup found %s but the reference jget gives %v", docString(found), j))
+				}
+			} else if j != nil {
+				report("refines_json_get", fmt.Sprintf("Lookup found nothing but the reference jget gives %v", j))
 			}
 		}
+		return cls, found != nil
 	case "clear":
-		// absent path => clear is a no-op
+		// C14_absent_clear_noop: lookup (ps ++ [name]) = Ok None => clear leaves the document untouched
 		full := append(append([]string{}, c.Path...), c.Name)
-		lc := case14{Op: "lookup", Doc: c.Doc, Path: full}
-		cls, _, found, _ := exec14(lc)
-		if cls == ClsOk && found == nil {
-			cls2, doc2, _, _ := exec14(c)
-			if cls2 == ClsOk && docString(doc2) != origS {
-				report("absent_clear_noop", "Clear of an absent path changed the document: "+origS+" -> "+docString(doc2))
+		clsL, foundL, _ := lookupOn(d.orig, full)
+		doc2 := d.ref.Copy()
+		cls2, found2, msg2 := exec14On(doc2, c)
+		if cls2 == ClsPanic {
+			reportPanic14(s, c, msg2)
+			return cls2, false
+		}
+		checkWellFormed14(s, c, cls2, doc2)
+		if clsL == ClsOk && foundL == nil {
+			if cls2 != ClsOk || !eqR14(doc2, d.ref) {
+				report("absent_clear_noop", fmt.Sprintf("Clear of an absent path (class %s) changed the document: %s -> %s", cls2, docString(d.ref), docString(doc2)))
 			}
 		}
+		return cls2, found2 != nil
+	case "lookupcreate", "putnc", "putscalar":
+		doc := d.ref.Copy()
+		cls, found, msg := exec14On(doc, c)
+		if cls == ClsPanic {
+			reportPanic14(s, c, msg)
+			return cls, false
+		}
+		checkWellFormed14(s, c, cls, doc)
+		if c.Op == "putscalar" && c.Value != nil && cls == ClsOk && found != nil {
+			lawsPutScalar14(s, c, d, doc)
+		}
+		return cls, found != nil
 	case "put":
 		if c.Value == nil {
-			return
+			return "", false
 		}
-		v := c.Value.build()
-		if kyaml.IsMissingOrNull(v) {
-			return
-		}
-		if !stable14(c.Path, c.Name) || nullOnPath14(c.Doc, c.Path) {
-			return
-		}
-		cls, doc1, found, _ := exec14(c)
-		if cls != ClsOk || found == nil {
-			return
-		}
-		full := append(append([]string{}, c.Path...), c.Name)
-		// put-get on the same document object
-		var got *kyaml.RNode
-		cls2, _ := protect(func() error {
-			var e error
-			got, e = doc1.Pipe(kyaml.Lookup(full...))
-			return e
-		})
-		if cls2 != ClsOk || got == nil {
-			report("put_get", fmt.Sprintf("after put the path is not found (class %s): %s", cls2, docString(doc1)))
-		} else {
-			want := c.Value.build()
-			if got.YNode().Value != want.YNode().Value || got.YNode().Kind != want.YNode().Kind || got.YNode().Tag != want.YNode().Tag {
-				report("put_get", fmt.Sprintf("after put lookup returns %s, want %s", docString(got), docString(want)))
-			}
-		}
-		// put-put: same put again changes nothing
-		after1 := docString(doc1)
-		cls3, _ := protect(func() error {
-			_, e := doc1.Pipe(kyaml.LookupCreate(kyaml.MappingNode, c.Path...), kyaml.SetField(c.Name, c.Value.build()))
-			return e
-		})
-		if cls3 != ClsOk || docString(doc1) != after1 {
-			report("put_put", fmt.Sprintf("second identical put changed the document (class %s): %s -> %s", cls3, after1, docString(doc1)))
-		}
-		// get-put: writing back what is there changes nothing
-		if got != nil && cls2 == ClsOk {
-			back := got.Copy()
-			cls4, _ := protect(func() error {
-				_, e := doc1.Pipe(kyaml.LookupCreate(kyaml.MappingNode, c.Path...), kyaml.SetField(c.Name, back))
-				return e
-			})
-			if cls4 != ClsOk || docString(doc1) != after1 {
-				report("get_put", fmt.Sprintf("writing back the value read changed the document (class %s): %s -> %s", cls4, after1, docString(doc1)))
-			}
-		}
-		// frame: every top-level key other than the first path part is untouched
-		if len(full) > 0 && !hasDupKeys(orig) {
-			first := ""
-			for _, p := range full {
-				if strings.TrimSpace(p) != "" {
-					first = strings.TrimSpace(p)
-					break
-				}
-			}
-			oy, ay := orig.YNode(), doc1.YNode()
-			if oy.Kind == kyaml.MappingNode && ay.Kind == kyaml.MappingNode {
-				for i := 0; i+1 < len(oy.Content); i += 2 {
-					k := oy.Content[i].Value
-					if k == first {
-						continue
-					}
-					before, _ := coqNode(oy.Content[i+1])
-					var afterN *kyaml.RNode
-					protect(func() error {
-						var e error
-						afterN, e = doc1.Pipe(kyaml.Get(k))
-						return e
-					})
-					if afterN == nil || docString(afterN) != before {
-						report("frame", fmt.Sprintf("put under %q changed sibling key %q", first, k))
-					}
-				}
-			}
-		}
+		return lawsPut14(s, c, d, probes)
+	}
+	return "", false
+}
+
+func lawsPutScalar14(s sink, c case14, d *docCtx14, doc1 *kyaml.RNode) {
+	// C14_put_scalar_get: v non-null, stable_put_scalar, no_null_path, Ok & node returned
+	v := c.Value.build()
+	if kyaml.IsMissingOrNull(v) || !stable14(c.Path, "") || nullOnPath14(d.orig, c.Path) {
+		return
+	}
+	s.Count("law_domain", "put-scalar-laws")
+	cls2, got, _ := lookupOn(doc1, c.Path)
+	if cls2 != ClsOk || got == nil || !sameValue14(got, v) {
+		s.Violation(OracleViolation{Law: "put_scalar_get", Class: "C14/put_scalar_get",
+			Detail: fmt.Sprintf("after putscalar lookup gives class %s node %s, want %s", cls2, optString(got), docString(v)), Replay: c})
 	}
 }
 
-func coqPartList(path []string) string { return coqStrList(path) }
+func lawsPut14(s sink, c case14, d *docCtx14, probes []probe14) (string, bool) {
+	report := func(law, detail string) {
+		s.Violation(OracleViolation{Law: law, Class: "C14/" + law, Detail: detail, Replay: c})
+	}
+	full := append(append([]string{}, c.Path...), c.Name)
+
+	doc1 := d.ref.Copy()
+	cls, found, msg := putOn(doc1, c.Path, c.Name, c.Value.build())
+	if cls == ClsPanic {
+		reportPanic14(s, c, msg)
+		return cls, false
+	}
+	checkWellFormed14(s, c, cls, doc1)
+
+	// ---- C14_get_put: lookup (ps ++ [name]) n = Ok (Some w), w non-null  =>  putting w back changes nothing
+	if clsL, w, _ := lookupOn(d.orig, full); clsL == ClsOk && w != nil && !kyaml.IsMissingOrNull(w) {
+		docG := d.ref.Copy()
+		clsG, _, _ := putOn(docG, c.Path, c.Name, w.Copy())
+		if clsG != ClsOk || !eqR14(docG, d.ref) {
+			report("get_put", fmt.Sprintf("writing back the value read (class %s) changed the document: %s -> %s", clsG, docString(d.ref), docString(docG)))
+		}
+	}
+	if cls != ClsOk {
+		return cls, false
+	}
+	stable := stable14(c.Path, c.Name)
+
+	// ---- C14_frame: stable_put; outcome Ok (path found or not); q diverges from ps ++ [name];
+	//      side condition: no_sel_key_read q \/ lookup q n <> Ok None.
+	//      (An unchanged document trivially has unchanged lookups.)
+	if stable && len(probes) > 0 && !eqR14(doc1, d.ref) {
+		pp := parsePath14(full)
+		for i := range probes {
+			pr := &probes[i]
+			if !diverges14(pp, pr.parts) {
+				continue
+			}
+			before := d.lookupBefore(pr.key, pr.q)
+			if !pr.nskr && before.cls == ClsOk && before.found == nil {
+				continue
+			}
+			clsA, after, _ := lookupOn(doc1, pr.q)
+			var afterN *kyaml.Node
+			if after != nil {
+				afterN = after.YNode()
+			}
+			if clsA != before.cls || !eqNode14(afterN, before.found, true) {
+				report("frame", fmt.Sprintf("put at %q changed Lookup(%q): %s %s -> %s %s", full, pr.q, before.cls, yString(before.found), clsA, yString(afterN)))
+				break
+			}
+		}
+	}
+
+	v := c.Value.build()
+	if found == nil || !stable || kyaml.IsMissingOrNull(v) || nullOnPath14(d.orig, c.Path) {
+		return cls, found != nil
+	}
+	s.Count("law_domain", "put-laws")
+
+	// ---- C14_put_get
+	cls2, got, _ := lookupOn(doc1, full)
+	if cls2 != ClsOk || got == nil {
+		report("put_get", fmt.Sprintf("after put the path is not found (class %s): %s", cls2, docString(doc1)))
+	} else if !sameValue14(got, v) {
+		report("put_get", fmt.Sprintf("after put lookup returns %s, want %s", docString(got), docString(v)))
+	}
+
+	// ---- C14_put_put_idempotent
+	doc2 := doc1.Copy()
+	cls3, _, _ := putOn(doc2, c.Path, c.Name, c.Value.build())
+	if cls3 != ClsOk || !eqR14(doc2, doc1) {
+		report("put_put", fmt.Sprintf("second identical put changed the document (class %s): %s -> %s", cls3, docString(doc1), docString(doc2)))
+	}
+
+	// ---- C14_put_put_last_wins: put v2 after put v1 == put v2 alone, up to scalar styles
+	if c.Value2 != nil {
+		v2 := c.Value2.build()
+		if !kyaml.IsMissingOrNull(v2) {
+			docA := doc1.Copy()
+			clsA, _, _ := putOn(docA, c.Path, c.Name, c.Value2.build())
+			docB := d.ref.Copy()
+			clsB, _, _ := putOn(docB, c.Path, c.Name, c.Value2.build())
+			if clsA != clsB || (clsA == ClsOk && !eqNode14(docA.YNode(), docB.YNode(), false)) {
+				report("last_write_wins", fmt.Sprintf("put v2 after put v1 (%s %s) differs from put v2 alone (%s %s)", clsA, docString(docA), clsB, docString(docB)))
+			}
+		}
+	}
+
+	// ---- C14_refines_json: tagged v  =>  to_json n' = jput (ps ++ [name]) (to_json v) (to_json n)
+	if v.YNode().Kind != kyaml.ScalarNode || v.YNode().Tag != "" {
+		want, ok := jput14(parsePath14(full), toJ14(v.YNode()), d.json())
+		if !ok || want.String() != toJ14(doc1.YNode()).String() {
+			ws := "<undefined>"
+			if ok {
+				ws = want.String()
+			}
+			report("refines_json", fmt.Sprintf("put result %s differs from the reference jput %s", toJ14(doc1.YNode()).String(), ws))
+		}
+	}
+	return cls, true
+}
 
 func caseTerm14(c case14, cls string, doc, found *kyaml.RNode) (string, bool) {
 	origDoc, err := kyaml.Parse(c.Doc)
@@ -483,6 +986,14 @@ func caseTerm14(c case14, cls string, doc, found *kyaml.RNode) (string, bool) {
 		}
 	case "clear":
 		op = fmt.Sprintf("(OClear %s)", coqStr(c.Name))
+	case "fieldspec":
+		op = c.FS.coqOp()
+		vals["MARK"] = true
+		vals["MV"] = true
+	case "fsslice":
+		op = coqSliceOp14(c.FSL)
+		vals["MARK"] = true
+		vals["MV"] = true
 	}
 	nonstr := []string{}
 	for _, s := range sortedKeys(vals) {
@@ -508,19 +1019,60 @@ func caseTerm14(c case14, cls string, doc, found *kyaml.RNode) (string, bool) {
 	return fmt.Sprintf("(mk14 %s %s %s %s %s %s %s)", op, coqStrList(c.Path), d0, cls, after, found2, coqStrList(nonstr)), true
 }
 
-func runC14(r *Run, rng *Rng, tier string) error {
-	nModel, nLaw := 1500, 6000
-	if tier == "thorough" {
-		nModel, nLaw = 12000, 120000
+// genProbes14: frame probes for a random put: paths that leave the write path at one position
+// (another key / index / selector value), with an optional tail, plus a few unrelated paths.
+func genProbes14(g *Rng, full []string) [][]string {
+	clean := cleanPath14(full)
+	out := [][]string{}
+	alt := func(p string) string {
+		pt := classify14(p)
+		switch pt.kind {
+		case pkKey:
+			return g.Pick(c14Keys)
+		case pkIdx:
+			return fmt.Sprint(g.Intn(3))
+		case pkSel:
+			return "[" + pt.nm + "=" + g.Pick([]string{"x", "y", "z", "1", ""}) + "]"
+		}
+		return g.Pick(c14Parts)
 	}
-	r.Meta.Rule = "documents: random block-YAML mappings (depth<=3, keys a/b/name/c, scalars x/y/1/\"1\"/null/true/\"\"/yes, " +
-		"keyed and primitive lists, rare duplicate keys); paths: length<=4 over keys, [name=v], [=v], indices, '-', rare malformed parts; " +
-		"ops lookup/lookupcreate/put/putnc/clear/putscalar. non-trivial = the operation returned a node or changed the document; distinct by hash of the case term"
+	for i := range clean {
+		for k := 0; k < 2; k++ {
+			q := append([]string{}, clean[:i]...)
+			q = append(q, alt(clean[i]))
+			for t := g.Intn(3); t > 0; t-- {
+				q = append(q, g.Pick(c14Parts))
+			}
+			out = append(out, q)
+		}
+	}
+	for k := 0; k < 2; k++ {
+		out = append(out, genPath14(g, 3))
+	}
+	return out
+}
+
+func runC14(r *Run, rng *Rng, tier string) error {
+	nModel, nLaw, nFS, nFSLaw := 1100, 5000, 600, 3000
+	if tier == "thorough" {
+		nModel, nLaw, nFS, nFSLaw = 9000, 100000, 4000, 40000
+	}
+	r.Meta.Rule = "path ops: random block-YAML mappings (depth<=3, keys a/b/name/c, scalars x/y/1/\"1\"/null/true/\"\"/yes, " +
+		"keyed and primitive lists, rare duplicate keys); paths of length<=4 over keys, [name=v], [=v], indices, '-', rare malformed parts; " +
+		"ops lookup/lookupcreate/put/putnc/clear/putscalar. field specs: random objects (apiVersion/kind, nested maps, lists of maps, " +
+		"null fields, scalars on the path) x slash paths (plain, '[]' hints, escaped '\\/', malformed segments) x create x CreateKind x CreateTag x GVK x SetValue. " +
+		"exhaustive: every mapping document up to the stated size over keys {a,b,name} / scalars {x,y,1} x every path up to the stated length " +
+		"over the stated part alphabet (see notes). non-trivial = the operation returned a node or changed the document; distinct by hash of the case term"
 	ops := []string{"lookup", "lookupcreate", "put", "put", "putnc", "clear", "putscalar", "lookup"}
 	kinds := []string{"KScalar", "KMap", "KSeq"}
 	gen := func(g *Rng) case14 {
-		doc := genNode14(g, 3, true).yaml()
-		c := case14{Op: g.Pick(ops), Doc: doc, Path: genPath14(g, 4)}
+		root := genNode14(g, 3, true)
+		doc := root.yaml()
+		path := genPath14(g, 4)
+		if g.Chance(60) {
+			path = genPathGuided14(g, root, 4)
+		}
+		c := case14{Op: g.Pick(ops), Doc: doc, Path: path}
 		switch c.Op {
 		case "lookupcreate":
 			c.Kind = g.Pick(kinds)
@@ -534,6 +1086,11 @@ func runC14(r *Run, rng *Rng, tier string) error {
 		case "clear":
 			c.Name = g.Pick(c14Keys)
 		}
+		if c.Op == "put" {
+			v2 := c14Values[g.Intn(len(c14Values))]
+			c.Value2 = &v2
+			c.Probes = genProbes14(g, append(append([]string{}, c.Path...), c.Name))
+		}
 		return c
 	}
 	// corpus first
@@ -543,16 +1100,36 @@ func runC14(r *Run, rng *Rng, tier string) error {
 	for i := 0; i < nModel; i++ {
 		runOne14(r, gen(rng.Fork()), true)
 	}
+	for i := 0; i < nFS; i++ {
+		if i%6 == 5 {
+			runOne14(r, genFSSliceCase14(rng.Fork()), true)
+		} else {
+			runOne14(r, genFSCase14(rng.Fork()), true)
+		}
+	}
 	for i := 0; i < nLaw; i++ {
-		c := gen(rng.Fork())
-		if c.Op == "lookupcreate" || c.Op == "putnc" || c.Op == "putscalar" {
+		g := rng.Fork()
+		c := gen(g)
+		if c.Op == "lookupcreate" || c.Op == "putnc" {
 			c.Op = "put"
-			c.Name = rng.Pick(c14Keys)
-			v := c14Values[rng.Intn(len(c14Values))]
+			c.Name = g.Pick(c14Keys)
+			v := c14Values[g.Intn(len(c14Values))]
 			c.Value = &v
+			v2 := c14Values[g.Intn(len(c14Values))]
+			c.Value2 = &v2
+			c.Probes = genProbes14(g, append(append([]string{}, c.Path...), c.Name))
 		}
 		runOne14(r, c, false)
 	}
+	for i := 0; i < nFSLaw; i++ {
+		if i%6 == 5 {
+			runOne14(r, genFSSliceCase14(rng.Fork()), false)
+		} else {
+			runOne14(r, genFSCase14(rng.Fork()), false)
+		}
+	}
+	// exhaustive small scope (law oracles only; a stride sample also goes to the model)
+	exhaustive14(r, tier)
 	return nil
 }
 
@@ -563,15 +1140,28 @@ func runOne14(r *Run, c case14, toModel bool) {
 		return
 	}
 	r.Count("op", c.Op)
-	r.Count("class", cls)
-	r.Count("path_len", fmt.Sprint(len(c.Path)))
+	r.Count("class/"+c.Op, cls)
+	if c.Op == "fieldspec" {
+		c.FS.count(r, c, cls, doc)
+	} else if c.Op == "fsslice" {
+		r.Count("fsslice_len", fmt.Sprint(len(c.FSL)))
+	} else {
+		r.Count("path_len", fmt.Sprint(len(c.Path)))
+	}
 	nontrivial := cls == ClsOk && (found != nil)
+	if (c.Op == "fieldspec" || c.Op == "fsslice") && cls == ClsOk {
+		if orig, err := kyaml.Parse(c.Doc); err == nil {
+			nontrivial = docString(orig) != docString(doc)
+		}
+	}
 	if toModel {
+		cm := c
+		cm.Probes = nil
 		term, ok := caseTerm14(c, cls, doc, found)
 		if !ok {
 			r.Meta.Skipped++
 		} else {
-			r.AddCase(term, c, nontrivial)
+			r.AddCase(term, cm, nontrivial)
 		}
 	} else {
 		b, _ := json.Marshal(c)
@@ -601,12 +1191,24 @@ func replayC14(path string) (bool, string, error) {
 	if err := json.Unmarshal(data, &rp); err != nil {
 		return false, "", err
 	}
+	if rp.Case.Op == "" {
+		// a bare case (e.g. a disagreeing correspondence case handed over by ./check)
+		_ = json.Unmarshal(data, &rp.Case)
+	}
+	expandEnumProbes(&rp.Case)
 	r := NewRun("C14", "replay", 0, "", "")
 	laws14(r, rp.Case)
 	cls, doc, found, msg := exec14(rp.Case)
-	detail := fmt.Sprintf("class=%s msg=%q after=%s found=%s", cls, msg, docString(doc), docString(found))
+	if cls == ClsErr {
+		if d2, err := kyaml.Parse(rp.Case.Doc); err == nil {
+			c2 := rp.Case
+			_, msg = protect(func() error { _, _, e := exec14Err(d2, c2); return e })
+		}
+	}
+	detail := fmt.Sprintf("class=%s msg=%q after=%s found=%s", cls, msg, optString(doc), optString(found))
 	if len(r.Meta.Violations) > 0 {
-		return true, detail + " LAW: " + r.Meta.Violations[0].Detail, nil
+		v := r.Meta.Violations[0]
+		return true, detail + " LAW " + v.Law + " class " + v.Class + ": " + v.Detail, nil
 	}
 	if cls == ClsPanic {
 		return true, detail, nil
